@@ -5,6 +5,8 @@ import numpy as np
 
 from vmon import diff, gen, instr, models, mstep, oracles, scen
 
+from vmon.scale import S
+
 ID = 'C08'
 RULE = ('cases = (a) single-distribution trainer calls compared with explicit-sum estimators (Watson / Bingham parameters in the '
         'residual domain of their defining equations), (b) mixture fits observed through the hook: every in-loop model must equal '
@@ -25,14 +27,14 @@ def plan(tier, seed):
     rng = np.random.default_rng([seed, 108])
     pick = lambda xs: xs[int(rng.integers(len(xs)))]
     cases, i = [], 0
-    n = 20 if tier == 'quick' else 200
+    n = S(tier, 20, 200)
     for fam in FAMS:
         for r in range(n if fam != 'bingham' else max(5, n // 4)):
             D = int(rng.integers(2, 8)) if fam != 'bingham' else int(rng.integers(2, 6))
             cases.append(dict(lane='trainer', fam=fam, D=D, N=int(rng.integers(D + 1, 60)), lead=pick([[], [2], [2, 2]]) if fam != 'bingham' else pick([[], [2]]),
                               saliency=pick(['none', 'pos', 'zeros', 'int']), spread=float(10 ** rng.uniform(-1, 1.3)), rs=[seed, 8, i]))
             i += 1
-    m = 22 if tier == 'quick' else 220
+    m = S(tier, 22, 220)
     for kind in models.KINDS:
         for r in range(m if kind != 'cbmm' else max(4, m // 6)):
             K = int(rng.integers(2, 5)); D = int(rng.integers(2, 8))
@@ -47,7 +49,7 @@ def plan(tier, seed):
             cases.append(dict(lane='trace', kind=kind, cls=pick(['gauss', 'gauss', 'dup', 'ragged']), K=K, N=N, D=D, lead=lead,
                               init=pick(['dirichlet:1', 'dirichlet:0.3', 'blur:0.3', 'onehot']), iters=iters, opts=o, rs=[seed, 9, i]))
             i += 1
-    p = 10 if tier == 'quick' else 100
+    p = S(tier, 10, 100)
     for kind in list(models.KINDS) + ['T:gauss', 'T:diag', 'T:spher', 'T:ccsg', 'T:vmf', 'T:watson', 'T:bingham']:
         for r in range(p if kind not in ('cbmm', 'T:bingham') else max(3, p // 4)):
             K = int(rng.integers(2, 4)); D = int(rng.integers(2, 6))
@@ -64,7 +66,7 @@ def plan(tier, seed):
             cases.append(dict(lane='repeat', kind=kind, cls='gauss', K=K, N=int(rng.integers(max(D + 1, 3 * K), 6 * K + D + 6)), D=D, lead=lead,
                               init=pick(['dirichlet:1', 'blur:0.3']), iters=int(pick([1, 2, 3, 5])) if kind != 'cbmm' else 1, opts=o, rs=[seed, 10, i]))
             i += 1
-    q = 30 if tier == 'quick' else 300
+    q = S(tier, 30, 300)
     for r in range(q):
         cases.append(dict(lane='weights', K=int(rng.integers(1, 6)), N=int(rng.integers(1, 20)), lead=pick([[], [3], [2, 3]]),
                           saliency=pick(['none', 'pos', 'zeros']), wca=pick([[-1], [-3], [-3, -1], [-2], -1, -2, -3]), rs=[seed, 11, i]))
